@@ -767,3 +767,332 @@ Theorem C02_scc_decomposition_bool :
 Proof. exact bool_scc_decomposition. Qed.
 Print Assumptions C02_scc_decomposition_bool.
 
+
+(** * 9. Newton's method (tier B): a model of [newton] and the Esparza-Kiefer-Luttenberger sandwich *)
+(** [Model/Newton.v]: [newton_step] = one pass of the loop of fggs/sum_product.py:newton on one
+    component [comp] (F0 = max(F x, x); dX = multi_solve(J x, F0 - x); x' = max(x + dX, F0)) with the
+    code-shaped Jacobian of Model/Dual.v; [newton_iter k] = k passes from the empty MultiTensor;
+    [newton_run] = the for/else loop with its stop test; [solve_ms] = [multi_solve_model] on the
+    tabulated blocks.  [le_on o G comp x y] / [eq_on G comp x y]: x <= y / x = y at every nonterminal
+    of [comp] and every in-range index tuple.  [newton_laws o sub maxr rsd]: maximum is the binary
+    join, (x - y) + y = x for y <= x, and [rsd u x] is the largest a with x + a <= u. *)
+Require Import Fggs.Model.Dual Fggs.Model.Newton.
+Require Import Fggs.Proofs.SemiringLaws Fggs.Proofs.Newton_taylor Fggs.Proofs.Newton_sandwich Fggs.Proofs.Newton_solve
+               Fggs.Proofs.Newton_laws Fggs.Proofs.Newton_inst Fggs.Proofs.Newton_tab Fggs.Proofs.Newton_examples.
+
+(** the product rule as an inequality: every monomial of the expansion of prod (p_i + d_i) contains
+    prod p_i and the first-order terms; any number of factors *)
+Theorem C02_taylor_product :
+  forall R (o : sr_ops R), sr_ring o -> sr_ordered o ->
+  forall A (l : list A) (p d : A -> R),
+    le o (add o (prodS o l p) (leib o l p d)) (prodS o l (fun x => add o (p x) (d x))).
+Proof. exact (fun R o Hr Ho A => @taylor_prod R o Hr Ho A). Qed.
+Print Assumptions C02_taylor_product.
+
+(** the Taylor inequality F(x) + J(x) . d <= F(x + d) for the grammar's equations, with J the
+    Jacobian the code computes ([J_contribs], blocks [J_val], [multi_mv] = [Amv]) *)
+Theorem C02_taylor :
+  forall R (o : sr_ops R), sr_ring o -> sr_ordered o ->
+  forall G, wf_grammar G = true ->
+  forall (w inp : env (R:=R)) comp, NoDup comp -> (forall m, In m comp -> is_term G m = false) ->
+  forall (x d : env (R:=R)) n xi, In n comp -> In xi (all_assts (lshape G n)) ->
+    le o (add o (ncomp_step o G w inp comp x n xi) (Amv o G comp (J_val o (newton_J o G w inp comp x)) d n xi))
+         (ncomp_step o G w inp comp (env_add o x d) n xi).
+Proof. exact (@newton_taylor). Qed.
+Print Assumptions C02_taylor.
+
+(** the inner linear solves: [multi_solve] on the tabulated blocks is the least solution of
+    y = A y + b (C09_multi_solve_refines read at the level of environments) *)
+Theorem C02_newton_solve_least :
+  forall R (o : sr_ops R), sr_ring o -> sr_ordered o -> sr_star o ->
+  forall G comp, NoDup comp -> solve_spec o G comp (solve_ms o G comp).
+Proof. exact (@solve_ms_spec). Qed.
+Print Assumptions C02_newton_solve_least.
+
+(** the facts about [sub] and [maximum], proved for the code's operations on the three carriers *)
+Theorem C02_newton_laws_carriers :
+  newton_laws bool_ops bsub2 orb (fun u _ => u)
+  /\ newton_laws ereal_ops esub emax2 ersd
+  /\ newton_laws trop_ops (fun x _ => x) tmax (fun u _ => u).
+Proof. exact (conj bool_newton_laws (conj ereal_newton_laws trop_newton_laws)). Qed.
+Print Assumptions C02_newton_laws_carriers.
+
+(** C02_newton_sandwich (one component, any solver that returns least solutions): Kleene <= Newton,
+    Newton <= every pre-fixed point *)
+Theorem C02_newton_sandwich_any_solver :
+  forall R (o : sr_ops R), sr_ring o -> sr_ordered o ->
+  forall sub maxr rsd, newton_laws o sub maxr rsd ->
+  forall G, wf_grammar G = true ->
+  forall (w inp : env (R:=R)) comp, NoDup comp -> (forall m, In m comp -> is_term G m = false) ->
+  forall solve, solve_spec o G comp solve ->
+  forall k,
+    (forall n xi, le o (comp_kleene o G w inp comp k n xi) (newton_iter o sub maxr G w inp comp solve k n xi))
+    /\ (forall u, le_on o G comp (ncomp_step o G w inp comp u) u ->
+                  le_on o G comp (newton_iter o sub maxr G w inp comp solve k) u).
+Proof.
+  exact (fun R o Hr Ho sub maxr rsd HL G Hwf w inp comp Hnd Hnt solve Hs k =>
+           conj (newton_above_kleene o Hr Ho sub maxr rsd HL G Hwf w inp comp solve k)
+                (fun u Hu => newton_below_prefix o Hr Ho sub maxr rsd HL G Hwf w inp comp Hnd Hnt solve Hs u Hu k)).
+Qed.
+Print Assumptions C02_newton_sandwich_any_solver.
+
+(** C02_newton_sandwich with the code's solver: for every k, kappa_k <= nu_k <= every pre-fixed
+    point; nu_k <= nu_{k+1}; nu_k <= F(nu_k) <= nu_{k+1} *)
+Theorem C02_newton_sandwich :
+  forall R (o : sr_ops R), sr_ring o -> sr_ordered o -> sr_star o ->
+  forall sub maxr rsd, newton_laws o sub maxr rsd ->
+  forall G, wf_grammar G = true ->
+  forall (w inp : env (R:=R)) comp, NoDup comp -> (forall m, In m comp -> is_term G m = false) ->
+  forall k,
+    let nu := newton_iter o sub maxr G w inp comp (solve_ms o G comp) in
+    (forall n xi, le o (comp_kleene o G w inp comp k n xi) (nu k n xi))
+    /\ (forall u, le_on o G comp (ncomp_step o G w inp comp u) u -> le_on o G comp (nu k) u)
+    /\ (forall n xi, le o (nu k n xi) (nu (S k) n xi))
+    /\ le_on o G comp (nu k) (ncomp_step o G w inp comp (nu k))
+    /\ (forall n xi, le o (ncomp_step o G w inp comp (nu k) n xi) (nu (S k) n xi)).
+Proof. exact (@newton_sandwich). Qed.
+Print Assumptions C02_newton_sandwich.
+
+(** the whole grammar as one system: the statement with the global Kleene iterates [Zk] *)
+Theorem C02_newton_sandwich_whole :
+  forall R (o : sr_ops R), sr_ring o -> sr_ordered o -> sr_star o ->
+  forall sub maxr rsd, newton_laws o sub maxr rsd ->
+  forall G, wf_grammar G = true ->
+  forall (w : env (R:=R)) k,
+    (forall X xi, le o (Zk o G w k X xi) (newton_whole o sub maxr G w k X xi))
+    /\ (forall u, env_le_on o G (step o G w u) u -> env_le_on o G (newton_whole o sub maxr G w k) u)
+    /\ (forall X xi, le o (newton_whole o sub maxr G w k X xi) (newton_whole o sub maxr G w (S k) X xi))
+    /\ env_le_on o G (newton_whole o sub maxr G w k) (step o G w (newton_whole o sub maxr G w k)).
+Proof. exact (@newton_whole_sandwich). Qed.
+Print Assumptions C02_newton_sandwich_whole.
+
+Theorem C02_newton_sandwich_real :
+  forall G, wf_grammar G = true -> forall (w : env (R:=ereal)) k,
+    (forall X xi, ele (Zk ereal_ops G w k X xi) (newton_whole ereal_ops esub emax2 G w k X xi))
+    /\ (forall u, env_le_on ereal_ops G (step ereal_ops G w u) u -> env_le_on ereal_ops G (newton_whole ereal_ops esub emax2 G w k) u)
+    /\ (forall X xi, ele (newton_whole ereal_ops esub emax2 G w k X xi) (newton_whole ereal_ops esub emax2 G w (S k) X xi))
+    /\ env_le_on ereal_ops G (newton_whole ereal_ops esub emax2 G w k) (step ereal_ops G w (newton_whole ereal_ops esub emax2 G w k)).
+Proof. exact newton_whole_sandwich_real. Qed.
+Print Assumptions C02_newton_sandwich_real.
+
+Theorem C02_newton_sandwich_bool :
+  forall G, wf_grammar G = true -> forall (w : env (R:=bool)) k,
+    (forall X xi, le bool_ops (Zk bool_ops G w k X xi) (newton_whole bool_ops bsub2 orb G w k X xi))
+    /\ (forall u, env_le_on bool_ops G (step bool_ops G w u) u -> env_le_on bool_ops G (newton_whole bool_ops bsub2 orb G w k) u)
+    /\ (forall X xi, le bool_ops (newton_whole bool_ops bsub2 orb G w k X xi) (newton_whole bool_ops bsub2 orb G w (S k) X xi))
+    /\ env_le_on bool_ops G (newton_whole bool_ops bsub2 orb G w k) (step bool_ops G w (newton_whole bool_ops bsub2 orb G w k)).
+Proof. exact newton_whole_sandwich_bool. Qed.
+Print Assumptions C02_newton_sandwich_bool.
+
+Theorem C02_newton_sandwich_viterbi :
+  forall G, wf_grammar G = true -> forall (w : env (R:=trop)) k,
+    let nw := newton_whole trop_ops (fun x _ => x) tmax G w in
+    (forall X xi, tle (Zk trop_ops G w k X xi) (nw k X xi))
+    /\ (forall u, env_le_on trop_ops G (step trop_ops G w u) u -> env_le_on trop_ops G (nw k) u)
+    /\ (forall X xi, tle (nw k X xi) (nw (S k) X xi))
+    /\ env_le_on trop_ops G (nw k) (step trop_ops G w (nw k)).
+Proof. exact newton_whole_sandwich_viterbi. Qed.
+Print Assumptions C02_newton_sandwich_viterbi.
+
+(** on the exact sequence both [maximum_] clamps of the code are the identity (they only matter
+    under rounding): F0 = F(nu_k) and nu_{k+1} = nu_k + dX *)
+Theorem C02_newton_clamps_noop :
+  forall R (o : sr_ops R), sr_ring o -> sr_ordered o ->
+  forall sub maxr rsd, newton_laws o sub maxr rsd ->
+  forall G, wf_grammar G = true ->
+  forall (w inp : env (R:=R)) comp, NoDup comp -> (forall m, In m comp -> is_term G m = false) ->
+  forall solve, solve_spec o G comp solve ->
+  forall k,
+    let nu := newton_iter o sub maxr G w inp comp solve in
+    eq_on G comp (newton_F0 o maxr G w inp comp (nu k)) (ncomp_step o G w inp comp (nu k))
+    /\ eq_on G comp (nu (S k)) (env_add o (nu k) (newton_dX o sub maxr G w inp comp solve (nu k))).
+Proof. exact (@newton_clamps_noop). Qed.
+Print Assumptions C02_newton_clamps_noop.
+
+(** once an iterate is a fixed point of the equations, further passes change nothing (so a run
+    whose stop test fired at an exact fixed point equals [newton_iter kmax]) *)
+Theorem C02_newton_stationary :
+  forall R (o : sr_ops R), sr_ring o -> sr_ordered o ->
+  forall sub maxr rsd, newton_laws o sub maxr rsd ->
+  forall G, wf_grammar G = true ->
+  forall (w inp : env (R:=R)) comp, NoDup comp -> (forall m, In m comp -> is_term G m = false) ->
+  forall solve, solve_spec o G comp solve ->
+  forall k,
+    let nu := newton_iter o sub maxr G w inp comp solve in
+    eq_on G comp (ncomp_step o G w inp comp (nu k)) (nu k) -> forall j, eq_on G comp (nu (j + k)) (nu k).
+Proof. exact (@newton_stationary). Qed.
+Print Assumptions C02_newton_stationary.
+
+(** certified enclosures (Model/Kleene.v, what [fp_check] uses): no Newton iterate exceeds u,
+    and from iterate 4 j on (j = rounds used by the enclosure search) they are above lo *)
+Theorem C02_newton_in_enclosure :
+  forall R (o : sr_ops R), sr_ring o -> sr_ordered o -> sr_star o ->
+  forall sub maxr rsd, newton_laws o sub maxr rsd ->
+  forall G, wf_grammar G = true ->
+  forall (w : env (R:=R)) (rd infl : R -> R) (leb : R -> R -> bool),
+    (forall x, le o (rd x) x) -> (forall x y, leb x y = true -> le o x y) ->
+  forall K lo u, enclosure o rd infl leb G w K = Some (lo, u) ->
+    (forall k, env_le_on o G (newton_whole o sub maxr G w k) (env_of o u))
+    /\ exists j, j <= K /\ forall k, 4 * j <= k -> env_le_on o G (env_of o lo) (newton_whole o sub maxr G w k).
+Proof. exact (@newton_in_enclosure). Qed.
+Print Assumptions C02_newton_in_enclosure.
+
+Theorem C02_newton_in_enclosure_real :
+  forall G, wf_grammar G = true -> forall w K lo u,
+  enclosure ereal_ops rd_real infl_real eleb G w K = Some (lo, u) ->
+  (forall k, env_le_on ereal_ops G (newton_whole ereal_ops esub emax2 G w k) (env_of ereal_ops u))
+  /\ exists j, j <= K /\ forall k, 4 * j <= k ->
+       env_le_on ereal_ops G (env_of ereal_ops lo) (newton_whole ereal_ops esub emax2 G w k).
+Proof. exact newton_in_enclosure_real. Qed.
+Print Assumptions C02_newton_in_enclosure_real.
+
+(** the value the loop returns -- whatever the stop test and the budget -- never exceeds u *)
+Theorem C02_newton_run_below_enclosure :
+  forall R (o : sr_ops R), sr_ring o -> sr_ordered o -> sr_star o ->
+  forall sub maxr rsd, newton_laws o sub maxr rsd ->
+  forall G, wf_grammar G = true ->
+  forall (w : env (R:=R)) (rd infl : R -> R) (leb : R -> R -> bool),
+    (forall x, le o (rd x) x) -> (forall x y, leb x y = true -> le o x y) ->
+  forall close kmax K lo u, enclosure o rd infl leb G w K = Some (lo, u) ->
+    env_le_on o G (fst (newton_whole_run o sub maxr G w close kmax)) (env_of o u).
+Proof. exact (@newton_run_below_enclosure). Qed.
+Print Assumptions C02_newton_run_below_enclosure.
+
+(** the loop of the model warns iff no pass's stop test succeeded (the loop shape of
+    C02_newton_warns_iff instantiated with the modelled body) *)
+Theorem C02_newton_run_warns_iff :
+  forall R (o : sr_ops R) sub maxr G (w inp : env (R:=R)) comp solve close kmax,
+    let nu := newton_iter o sub maxr G w inp comp solve in
+    snd (newton_run o sub maxr G w inp comp solve close kmax) = true
+    <-> forall i, i < kmax -> close (newton_F0 o maxr G w inp comp (nu i)) (nu i) = false.
+Proof. exact (@newton_run_warns_iff). Qed.
+Print Assumptions C02_newton_run_warns_iff.
+
+(** exact stop test + no warning: the returned value is the least fixed point of the grammar's
+    equations and the supremum of the Kleene iterates (Bool and Viterbi: the code's test with
+    tol = 0 is exact equality) *)
+Theorem C02_newton_exact_stop_is_lfp :
+  forall R (o : sr_ops R), sr_ring o -> sr_ordered o -> sr_star o ->
+  forall sub maxr rsd, newton_laws o sub maxr rsd ->
+  forall G, wf_grammar G = true ->
+  forall (w : env (R:=R)) (eqb : R -> R -> bool) kmax,
+    (forall x y, eqb x y = true -> x = y) ->
+    snd (newton_whole_run o sub maxr G w (close_exact G (nonterminals G) eqb) kmax) = false ->
+    let res := fst (newton_whole_run o sub maxr G w (close_exact G (nonterminals G) eqb) kmax) in
+    env_eq_on G (step o G w res) res
+    /\ (forall u, env_le_on o G (step o G w u) u -> env_le_on o G res u)
+    /\ (forall k, env_le_on o G (Zk o G w k) res).
+Proof. exact (@newton_exact_stop_is_lfp). Qed.
+Print Assumptions C02_newton_exact_stop_is_lfp.
+
+Theorem C02_newton_exact_stop_is_lfp_bool :
+  forall G, wf_grammar G = true -> forall (w : env (R:=bool)) kmax,
+    snd (newton_whole_run bool_ops bsub2 orb G w (close_exact G (nonterminals G) Bool.eqb) kmax) = false ->
+    let res := fst (newton_whole_run bool_ops bsub2 orb G w (close_exact G (nonterminals G) Bool.eqb) kmax) in
+    env_eq_on G (step bool_ops G w res) res
+    /\ (forall u, env_le_on bool_ops G (step bool_ops G w u) u -> env_le_on bool_ops G res u)
+    /\ (forall k, env_le_on bool_ops G (Zk bool_ops G w k) res).
+Proof. exact newton_exact_stop_is_lfp_bool. Qed.
+Print Assumptions C02_newton_exact_stop_is_lfp_bool.
+
+Theorem C02_newton_exact_stop_is_lfp_viterbi :
+  forall G, wf_grammar G = true -> forall (w : env (R:=trop)) kmax,
+    snd (newton_whole_run trop_ops (fun x _ => x) tmax G w (close_exact G (nonterminals G) teqb) kmax) = false ->
+    let res := fst (newton_whole_run trop_ops (fun x _ => x) tmax G w (close_exact G (nonterminals G) teqb) kmax) in
+    env_eq_on G (step trop_ops G w res) res
+    /\ (forall u, env_le_on trop_ops G (step trop_ops G w u) u -> env_le_on trop_ops G res u)
+    /\ (forall k, env_le_on trop_ops G (Zk trop_ops G w k) res).
+Proof. exact newton_exact_stop_is_lfp_viterbi. Qed.
+Print Assumptions C02_newton_exact_stop_is_lfp_viterbi.
+
+Theorem C02_newton_exact_stop_is_lfp_real :
+  forall G, wf_grammar G = true -> forall (w : env (R:=ereal)) kmax,
+    snd (newton_whole_run ereal_ops esub emax2 G w (close_exact G (nonterminals G) eeqb) kmax) = false ->
+    let res := fst (newton_whole_run ereal_ops esub emax2 G w (close_exact G (nonterminals G) eeqb) kmax) in
+    env_eq_on G (step ereal_ops G w res) res
+    /\ (forall u, env_le_on ereal_ops G (step ereal_ops G w u) u -> env_le_on ereal_ops G res u)
+    /\ (forall k, env_le_on ereal_ops G (Zk ereal_ops G w k) res).
+Proof. exact newton_exact_stop_is_lfp_real. Qed.
+Print Assumptions C02_newton_exact_stop_is_lfp_real.
+
+(** a linearly recursive component (what [sum_products] hands to method 'linear'): ONE Newton pass
+    from zero already returns the least fixed point *)
+Theorem C02_newton_linear_one_pass :
+  forall R (o : sr_ops R), sr_ring o -> sr_ordered o ->
+  forall sub maxr rsd, newton_laws o sub maxr rsd ->
+  forall G, wf_grammar G = true ->
+  forall (w inp : env (R:=R)) comp, NoDup comp -> (forall m, In m comp -> is_term G m = false) ->
+  forall solve, solve_spec o G comp solve ->
+    max_rhs G comp <= 1 ->
+    let x1 := newton_iter o sub maxr G w inp comp solve 1 in
+    eq_on G comp (ncomp_step o G w inp comp x1) x1
+    /\ (forall u, le_on o G comp (ncomp_step o G w inp comp u) u -> le_on o G comp x1 u).
+Proof. exact (@newton_linear_one_pass). Qed.
+Print Assumptions C02_newton_linear_one_pass.
+
+(** a pass reads its argument only on the component's range ... *)
+Theorem C02_newton_step_ext :
+  forall R (o : sr_ops R), sr_ring o -> sr_ordered o ->
+  forall sub maxr G, wf_grammar G = true ->
+  forall (w inp : env (R:=R)) comp, NoDup comp ->
+  forall solve, solve_spec o G comp solve ->
+  forall x y, eq_on G comp x y ->
+    eq_on G comp (newton_step o sub maxr G w inp comp solve x) (newton_step o sub maxr G w inp comp solve y).
+Proof. exact (@newton_step_ext). Qed.
+Print Assumptions C02_newton_step_ext.
+
+(** ... hence the tables iterated by the check function [newton_check] are the Newton iterates
+    (and its lower-bound tables the Kleene iterates) of the component *)
+Theorem C02_newton_comp_refines :
+  forall R (o : sr_ops R), sr_ring o -> sr_ordered o -> sr_star o ->
+  forall sub maxr G, wf_grammar G = true ->
+  forall (all : tmt (R:=R)) comp, NoDup comp ->
+  forall k,
+    eq_on G comp (env_of o (newton_comp o sub maxr G all comp k))
+          (newton_iter o sub maxr G (env_of o all) (env_of o all) comp (solve_ms o G comp) k).
+Proof. exact (@newton_comp_refines). Qed.
+Print Assumptions C02_newton_comp_refines.
+
+Theorem C02_kleene_comp_refines :
+  forall R (o : sr_ops R), sr_ring o -> sr_ordered o ->
+  forall G, wf_grammar G = true ->
+  forall (all : tmt (R:=R)) comp k,
+    eq_on G comp (env_of o (kleene_comp o G all comp k))
+          (comp_kleene o G (env_of o all) (env_of o all) comp k).
+Proof. exact (@kleene_comp_refines). Qed.
+Print Assumptions C02_kleene_comp_refines.
+
+(** the hypotheses are satisfiable: Y -> Y Y | a over the reals, a = 3/16: Newton iterates 3/16,
+    39/160, ... strictly between the Kleene iterates (57/256 at k = 2) and the least fixed point
+    1/4; the Bool loop with budget 3 stops without warning at the least fixed point *)
+Theorem C02_newton_example :
+  eeqb (ex_nu 1) (qe (3 # 16)%Q) = true /\ eeqb (ex_nu 2) (qe (39 # 160)%Q) = true
+  /\ eeqb (ex_kappa 2) (qe (57 # 256)%Q) = true
+  /\ eleb (ex_kappa 3) (ex_nu 3) = true /\ eleb (ex_nu 3) (qe (1 # 4)%Q) = true
+  /\ eeqb (ex_nu 3) (qe (1 # 4)%Q) = false.
+Proof. exact newton_ex_values. Qed.
+Print Assumptions C02_newton_example.
+
+(** ... and therefore inside every certified enclosure [lo, u] (Real: the one of [fp_check_real]) *)
+Theorem C02_newton_exact_stop_in_enclosure :
+  forall R (o : sr_ops R), sr_ring o -> sr_ordered o -> sr_star o ->
+  forall sub maxr rsd, newton_laws o sub maxr rsd ->
+  forall G, wf_grammar G = true ->
+  forall (w : env (R:=R)) (rd infl : R -> R) (leb eqb : R -> R -> bool) kmax K lo u,
+    (forall x, le o (rd x) x) -> (forall x y, leb x y = true -> le o x y) ->
+    (forall x y, eqb x y = true -> x = y) ->
+    enclosure o rd infl leb G w K = Some (lo, u) ->
+    snd (newton_whole_run o sub maxr G w (close_exact G (nonterminals G) eqb) kmax) = false ->
+    let res := fst (newton_whole_run o sub maxr G w (close_exact G (nonterminals G) eqb) kmax) in
+    env_le_on o G (env_of o lo) res /\ env_le_on o G res (env_of o u).
+Proof. exact (@newton_exact_stop_in_enclosure). Qed.
+Print Assumptions C02_newton_exact_stop_in_enclosure.
+
+Theorem C02_newton_exact_stop_in_enclosure_real :
+  forall G, wf_grammar G = true -> forall w kmax K lo u,
+    enclosure ereal_ops rd_real infl_real eleb G w K = Some (lo, u) ->
+    snd (newton_whole_run ereal_ops esub emax2 G w (close_exact G (nonterminals G) eeqb) kmax) = false ->
+    let res := fst (newton_whole_run ereal_ops esub emax2 G w (close_exact G (nonterminals G) eeqb) kmax) in
+    env_le_on ereal_ops G (env_of ereal_ops lo) res /\ env_le_on ereal_ops G res (env_of ereal_ops u).
+Proof. exact newton_exact_stop_in_enclosure_real. Qed.
+Print Assumptions C02_newton_exact_stop_in_enclosure_real.
